@@ -59,6 +59,12 @@ pub fn gen_world(rng: &mut Rng, p: &Profile) -> (WorldCfg, u8) {
             "cr", "co", "con", "cont", "contr", "contract", "contract1", "contract10", "cr5", "cr1", "t1",
             "ct1", "tc1", "c1", "o1", "n1", "1", "10", "c10",
         ];
+        // half of the adversarial worlds contain a whole family whose pair keys collide when
+        // ids are concatenated without a delimiter: {ab,c} vs {a,bc}; {a,ab} vs {aa,b}
+        if nd >= 4 && rng.chance(50, 100) {
+            let fam: [&str; 4] = *rng.pick(&[["ab", "c", "a", "bc"], ["a", "ab", "aa", "b"], ["u", "ua", "uu", "a"]]);
+            denoms = fam.iter().map(|s| s.to_string()).collect();
+        }
         while denoms.len() < nd {
             let d = rng.pick(&pool).to_string();
             if !denoms.contains(&d) {
